@@ -430,6 +430,7 @@ func runC10(p *core.Prog, r *core.Report) {
 
 	r.Guard("C10.R2", "save-load", "snapshot field symmetry", func() { checkSaveLoadSymmetry(p, r, "C10.R2") })
 	r.Guard("C10.R2", "upload", "fresh reader per upload attempt", func() { checkFreshReaderPerAttempt(p, r, "C10.R2") })
+	r.Guard("C10.R2", "download", "a retried download starts from nothing", func() { checkRetryAccumulatesNothing(p, r, "C10.R2") })
 
 	r.Guard("C10.R3", "ListSnapshotFiles", "listing guards", func() {
 		fn := p.Func(pkgStore, "Config.ListSnapshotFiles")
